@@ -1400,12 +1400,16 @@ class ManifestRecursiveLoader:
                     if relpath in self.updated_manifests:
                         continue
 
+                # (the mtime short-cut is for entries written by
+                # the update that made the TIMESTAMP; a Manifest that
+                # has just been found lying around vouches for nothing)
                 changed = update_entry_for_path(
                     os.path.join(dirpath, f),
                     fe,
                     hashes=hashes,
                     expected_dev=self.manifest_device,
-                    last_mtime=last_mtime)
+                    last_mtime=(None if mpath in new_manifests
+                                else last_mtime))
                 if changed and mpath is not None:
                     self.updated_manifests.add(mpath)
 
